@@ -6,6 +6,8 @@
 //verif:cover VerifC02Key multi-leaf exact-multiple empty partial-tail
 //verif:assume many leaves: leaf size 2, contents of 33..37 bytes (17..19 leaves: beyond one 16-key batch of the root hasher), the bytes of the first, the 16th and the 17th leaf symbolic, the others a fixed pattern
 //verif:cover VerifC02ManyLeaves seventeen-leaves partial-tail
+//verif:assume concurrent puts: two instances store contents of two leaves (leaf size 2; equal, or sharing the first leaf, symbolic bytes) into one blob store, interleaved at store-call granularity with at most two hand-overs
+//verif:cover VerifC02ConcurrentPuts same-content shared-leaf switched
 //verif:cover VerifC02Dedup duplicate-found emptied-blob-rewritten crc-mismatch-rewritten different-content prefixed store-without-touch
 package cafs
 
@@ -126,6 +128,53 @@ func VerifC02ManyLeaves() {
 	vAssert(err == nil, "put-no-error")
 	vAssert(res2.Key != res.Key, "contents-differing-in-a-late-leaf-get-different-keys")
 	vAssert(!res2.Found, "different-content-is-not-reported-as-a-duplicate")
+}
+
+// VerifC02ConcurrentPuts: two overlapping Puts into a shared blob store (same content, or contents sharing a
+// leaf), every interleaving of their store calls within the bound: both succeed with the reference keys and both
+// contents read back through a fresh instance.
+func VerifC02ConcurrentPuts() {
+	vBudget(60000000)
+	L := uint32(2)
+	a := vBytes("a", 4)
+	b := a
+	if vChoose("secondContent", 2) == 1 {
+		b = append(append([]byte{}, a[:2]...), vBytes("b", 2)...) // shares the first leaf
+		vCover("shared-leaf")
+	} else {
+		vCover("same-content")
+	}
+	store := newVStore("blob")
+	switched := 0
+	store.sched = func() {
+		if switched < 2 && vChoose("switch", 2) == 1 {
+			switched++
+			vYield()
+		}
+	}
+	var ra, rb PutRes
+	var ea, eb error
+	vTasks(
+		func() { ra, ea = vNewFs(store, L, 1, 0).Put(context.Background(), &vChunkSrc{b: a}) },
+		func() { rb, eb = vNewFs(store, L, 1, 0).Put(context.Background(), &vChunkSrc{b: b}) },
+	)
+	store.sched = nil
+	if switched > 0 {
+		vCover("switched")
+	}
+	vAssert(ea == nil && eb == nil, "both-puts-succeed")
+	wa, _ := vRefKey(a, L)
+	wb, _ := vRefKey(b, L)
+	vAssert(ra.Key == wa && rb.Key == wb, "key-is-the-reference-tree-hash")
+	for _, c := range []struct {
+		k Key
+		b []byte
+	}{{ra.Key, a}, {rb.Key, b}} {
+		rd, err := vNewFs(store, L, 1, 0).Get(context.Background(), c.k)
+		vAssert(err == nil, "get-no-error")
+		got, err := io.ReadAll(rd)
+		vAssert(err == nil && vBytesEqual(got, c.b), "content-reads-back")
+	}
 }
 
 // VerifC02Dedup: storing content that is already present returns the same key, reports a duplicate and leaves
